@@ -235,7 +235,27 @@ Proof.
   intros I Hfresh Hs Hw.
   assert (Hlnone : alookup l (w_env w) = None).
   { destruct (alookup l (w_env w)) as [i|] eqn:E; auto. exfalso. apply Hfresh. eapply wi_env_done; eauto. }
-  destruct s as [d ins| |h l' p|a b]; cbn [wire_stmt] in Hw.
+  assert (Hgen : (forall d ins, s <> StNode d ins) -> (forall h l1 q, s <> StBind h l1 q) ->
+                 forall dp, WInv prog (l :: done) {| w_insts := w_insts w; w_tab := w_tab w; w_env := w_env w;
+                                   w_phs := w_phs w; w_binds := w_binds w; w_deps := dp |} /\
+                              w_le w {| w_insts := w_insts w; w_tab := w_tab w; w_env := w_env w;
+                                        w_phs := w_phs w; w_binds := w_binds w; w_deps := dp |}).
+  { intros Hnn Hnb dp.
+    assert (Hle : w_le w {| w_insts := w_insts w; w_tab := w_tab w; w_env := w_env w;
+                            w_phs := w_phs w; w_binds := w_binds w; w_deps := dp |}).
+    { split; [auto|]. split; [apply env_le_refl | apply phs_le_refl]. }
+    split; [|exact Hle].
+    constructor; cbn [w_insts w_tab w_env w_phs w_binds w_deps].
+    + intros l0 i0 H. eapply inst_matches_mono; [exact Hle | eapply wi_env; eauto].
+    + intros l0 i0 H. right. eapply wi_env_done; eauto.
+    + intros l0 d0 ins0 [<-|Hd] Hn; [exfalso; rewrite Hs in Hn; injection Hn as ->; eapply Hnn; reflexivity|].
+      eapply wi_node_done; eauto.
+    + apply (wi_tab _ _ _ I).
+    + intros h i0 q H. destruct (wi_binds _ _ _ I h i0 q H) as (lb & l1 & H1 & H2 & H3).
+      exists lb, l1. split; [right; exact H1|]. auto.
+    + intros lb h l1 q [<-|Hd] Hn; [exfalso; rewrite Hs in Hn; injection Hn as ->; eapply Hnb; reflexivity|].
+      eapply wi_bind_done; eauto. }
+  destruct s as [d ins| |h l' p|a b|pa la|pa la rc]; cbn [wire_stmt] in Hw.
   - (* node *)
     unfold wire_node, wire_node_gen in Hw.
     destruct (resolve_inputs (w_env w) (w_phs w) ins) as [rins0|] eqn:R; [|discriminate].
@@ -348,26 +368,16 @@ Proof.
     destruct (alookup a (w_env w)) as [ia|] eqn:Ea; [|discriminate].
     destruct (alookup b (w_env w)) as [ib|] eqn:Eb; [|discriminate].
     destruct (ia =? ib); [discriminate|].
-    assert (Hgen : forall dp, WInv prog (l :: done) {| w_insts := w_insts w; w_tab := w_tab w; w_env := w_env w;
-                                   w_phs := w_phs w; w_binds := w_binds w; w_deps := dp |} /\
-                              w_le w {| w_insts := w_insts w; w_tab := w_tab w; w_env := w_env w;
-                                        w_phs := w_phs w; w_binds := w_binds w; w_deps := dp |}).
-    { intros dp.
-      assert (Hle : w_le w {| w_insts := w_insts w; w_tab := w_tab w; w_env := w_env w;
-                              w_phs := w_phs w; w_binds := w_binds w; w_deps := dp |}).
-      { split; [auto|]. split; [apply env_le_refl | apply phs_le_refl]. }
-      split; [|exact Hle].
-      constructor; cbn [w_insts w_tab w_env w_phs w_binds w_deps].
-      + intros l0 i0 H. eapply inst_matches_mono; [exact Hle | eapply wi_env; eauto].
-      + intros l0 i0 H. right. eapply wi_env_done; eauto.
-      + intros l0 d0 ins0 [<-|Hd] Hn; [congruence|]. eapply wi_node_done; eauto.
-      + apply (wi_tab _ _ _ I).
-      + intros h i0 q H. destruct (wi_binds _ _ _ I h i0 q H) as (lb & l1 & H1 & H2 & H3).
-        exists lb, l1. split; [right; exact H1|]. auto.
-      + intros lb h l1 q [<-|Hd] Hn; [congruence|]. eapply wi_bind_done; eauto. }
+    assert (Hg := Hgen ltac:(discriminate) ltac:(discriminate)).
     destruct (existsb (pair_eqb (ia, ib)) (w_deps w)).
-    + injection Hw as <-. destruct w. apply Hgen.
-    + injection Hw as <-. apply Hgen.
+    + injection Hw as <-. destruct w. apply Hg.
+    + injection Hw as <-. apply Hg.
+  - (* rank anchor registration: the wiring state proper is unchanged *)
+    destruct (alookup la (w_env w)); [|discriminate]. injection Hw as <-.
+    pose proof (Hgen ltac:(discriminate) ltac:(discriminate) (w_deps w)) as Hg. destruct w. apply Hg.
+  - (* client rank registration *)
+    destruct (alookup la (w_env w)); [|discriminate]. injection Hw as <-.
+    pose proof (Hgen ltac:(discriminate) ltac:(discriminate) (w_deps w)) as Hg. destruct w. apply Hg.
 Qed.
 
 (* ------------------------------------------------------------------ a whole wiring run *)
@@ -440,7 +450,7 @@ Definition single_bind (prog : list stmt) : Prop :=
 Lemma bind_of_in prog h l p : bind_of prog h = Some (l, p) -> In (StBind h l p) prog.
 Proof.
   induction prog as [|s r IH]; simpl; [discriminate|].
-  destruct s as [d ins| |h' l' p'|a b]; try (intros H; right; apply IH; exact H).
+  destruct s as [d ins| |h' l' p'|a b|pa la|pa la rc]; try (intros H; right; apply IH; exact H).
   destruct (h' =? h) eqn:E.
   - apply Nat.eqb_eq in E. subst. intros H. injection H as -> ->. left; reflexivity.
   - intros H. right. apply IH; exact H.
@@ -449,7 +459,7 @@ Qed.
 Lemma bind_of_none prog h : bind_of prog h = None -> forall l p, ~ In (StBind h l p) prog.
 Proof.
   induction prog as [|s r IH]; simpl; intros H l p; [tauto|].
-  destruct s as [d ins| |h' l' p'|a b]; try (intros [X|X]; [discriminate | apply (IH H l p X)]).
+  destruct s as [d ins| |h' l' p'|a b|pa la|pa la rc]; try (intros [X|X]; [discriminate | apply (IH H l p X)]).
   destruct (h' =? h) eqn:E; [discriminate|].
   intros [X|X]; [|apply (IH H l p X)]. injection X as -> _ _. rewrite Nat.eqb_refl in E. discriminate.
 Qed.
@@ -619,22 +629,25 @@ Qed.
 Lemma compile_ranked prog order w g o es :
   compile prog order = Built w g o es -> rg_wf g -> kahn g = KOk o /\ is_ranking g o.
 Proof.
-  unfold compile. destruct (wire_prog true prog order) as [w'|c]; [|discriminate].
+  unfold compile. destruct (wire_prog true prog order) as [w0'|c]; [|discriminate].
+  destruct (collect_svc prog order (w_env w0') svc0) as [sv|c]; [|discriminate].
+  set (w' := finalize w0' sv).
   unfold finish. destruct (rgraph_of w') as [g'|]; [|discriminate].
   destruct (kahn g') as [o'| |] eqn:K; try discriminate.
   destruct (emit_from w' 0 (w_insts w')); [|discriminate].
   intros H Hwf. injection H as <- <- <- <-. split; auto. apply kahn_sound; auto.
 Qed.
 
-Lemma compile_rejects_cycle prog order w :
-  wire_prog true prog order = Ok w ->
-  forall g, rgraph_of w = Some g -> rg_wf g ->
+(* [w] is the wired state with the service rank dependencies applied, i.e. what finish ranks *)
+Lemma compile_rejects_cycle prog order w0' sv :
+  wire_prog true prog order = Ok w0' -> collect_svc prog order (w_env w0') svc0 = Ok sv ->
+  forall g, rgraph_of (finalize w0' sv) = Some g -> rg_wf g ->
   (compile prog order = Rejected E_CYCLE <-> cyclic g /\ ~ has_push_dep g).
 Proof.
-  intros Hw g Hg Hwf. unfold compile, finish. rewrite Hw, Hg.
+  intros Hw Hs g Hg Hwf. unfold compile, finish. rewrite Hw, Hs, Hg.
   rewrite <- (kahn_complete g Hwf).
   destruct (kahn g) as [o| |]; try (split; [discriminate | congruence]).
-  - destruct (emit_from w 0 (w_insts w)); split; try discriminate; try congruence.
+  - destruct (emit_from (finalize w0' sv) 0 (w_insts (finalize w0' sv))); split; try discriminate; try congruence.
   - split; auto.
 Qed.
 
